@@ -409,18 +409,21 @@ impl<T: RecognizerReadable> RecognizerReadable for Quantity<T> {
     fn make_recognizer() -> Self::Rec {
         QuantityRecognizer {
             recognizer: T::make_recognizer(),
+            started: false,
         }
     }
 
     fn make_attr_recognizer() -> Self::AttrRec {
         SimpleAttrBody::new(QuantityRecognizer {
             recognizer: T::make_recognizer(),
+            started: false,
         })
     }
 
     fn make_body_recognizer() -> Self::BodyRec {
         SimpleRecBody::new(QuantityRecognizer {
             recognizer: T::make_recognizer(),
+            started: false,
         })
     }
 }
@@ -428,6 +431,8 @@ impl<T: RecognizerReadable> RecognizerReadable for Quantity<T> {
 #[doc(hidden)]
 pub struct QuantityRecognizer<T: RecognizerReadable> {
     recognizer: T::Rec,
+    // Set once the wrapped recognizer has been given an event: "infinite" is only special as the first event.
+    started: bool,
 }
 
 impl<T: RecognizerReadable> Recognizer for QuantityRecognizer<T> {
@@ -435,15 +440,21 @@ impl<T: RecognizerReadable> Recognizer for QuantityRecognizer<T> {
 
     fn feed_event(&mut self, input: ReadEvent<'_>) -> Option<Result<Self::Target, ReadError>> {
         match input {
-            ReadEvent::TextValue(value) if value == INFINITE_TAG => Some(Ok(Quantity::Infinite)),
-            _ => match self.recognizer.feed_event(input)? {
-                Ok(val) => Some(Ok(Quantity::Finite(val))),
-                Err(err) => Some(Err(err)),
-            },
+            ReadEvent::TextValue(value) if !self.started && value == INFINITE_TAG => {
+                Some(Ok(Quantity::Infinite))
+            }
+            _ => {
+                self.started = true;
+                match self.recognizer.feed_event(input)? {
+                    Ok(val) => Some(Ok(Quantity::Finite(val))),
+                    Err(err) => Some(Err(err)),
+                }
+            }
         }
     }
 
     fn reset(&mut self) {
+        self.started = false;
         self.recognizer.reset()
     }
 }
